@@ -31,6 +31,17 @@ FORMS = ["ex", "in", "exs", "ins"]
 MAXN = 3000
 
 
+
+def pregen():
+    """regenerate coq/theories/Gen/RangeArms.v from the current Rust source (translators/range_arms.py): the arm obligations
+    of Props/C15.v (section on the range kernels) are stated over that table"""
+    import os, sys
+    from vlib import core
+    sys.path.insert(0, os.path.join(core.ROOT, "translators"))
+    import armlib
+    return armlib.pregen(PROP, [("range_arms", "theories/Proofs/RangeArmsP.vo")])
+
+
 def lit_ok(k, v):
     lo, hi = ms.kind_range(k)
     if not (lo <= v <= hi):
